@@ -54,6 +54,7 @@ def run(tier, seed, build):
     wit_names = [l.split("(")[0][4:] for l in WITNESSES.splitlines() if l.startswith("def ")]
     from props.bodygen import PREAMBLE
     cases = vl.run_batch(rng, n_modules, model, extra_sources=[(PREAMBLE + WITNESSES, wit_names)])
+    cases += vl.run_file_batch(rng, n_modules // 3, model)
     for c in cases:
         res.evaluations += 1
         case = {"function": c.fn_src}
